@@ -108,12 +108,23 @@ def run(R):
     for st in [b"$y$j9T$saltsalt", b"$gy$j9T$saltsalt", b"$y$jB5$abcd", b"$y$j8T$abcd", b"$y$jAT$abcd", b"$y$j9T$" + S.enc64(bytes(range(16)))]:
         for ph in ([b"pw", bytes(R.rng.randrange(1, 256) for _ in range(33))] if quick else [b"pw", b"", bytes(range(1, 65)), bytes(R.rng.randrange(1, 256) for _ in range(200))]):
             ops.append(CS.crypt_op("rn", 0, ph, st)); meta.append(("gost_yescrypt" if st.startswith(b"$gy$") else "yescrypt", "default-cost", len(ph), len(st)))
-    ops, meta, il, ml = CS.run_budgeted(R, ops, meta, group_starts=list(range(len(ops))))
-    diffs = compare(R, ops, il, ml, CS.proj_crypt, "full hashes")
+    starts = list(range(len(ops)))
+    # the published function whatever the data object held: first call on an object the application filled (crypt.h asks only for
+    # `initialized = 0`), every method, a phrase longer than the DES key and one of 257 bytes (seeded/C02f: a wrong bsdicrypt hash there)
+    ph257 = bytes(0x21 + (i * 7) % 94 for i in range(257))
+    for m, vs in canon_variants.items():
+        for ph in (b"a phrase longer than eight bytes", ph257):
+            for fill in "fr":
+                starts.append(len(ops))
+                ops.append("O 0 %s %d %d" % (fill, R.rng.randrange(16), R.rng.randrange(1 << 30))); meta.append(("setup", "obj", 0, 0))
+                ops.append(CS.crypt_op("r" if fill == "f" else "rn", 0, ph, vs[0])); meta.append((m, "first-call-on-filled-object", len(ph), len(vs[0])))
+    ops, meta, il, ml = CS.run_budgeted(R, ops, meta, group_starts=starts)
+    diffs = compare(R, ops, il, ml, lambda op, a, b: CS.proj_crypt(op, a, b) if op.startswith("C ") else None, "full hashes")
     hamlet = bytes(R.genvals["B"]["hamlet_quotation"]) if hasattr(R, "genvals") else None
     bad = []
     n_spec = 0
     for op, m, line in zip(ops, meta, il):
+        if not op.startswith("C "): continue
         f = fields(line); t = op.split(" ")
         if f.get("ret") == "NULL":
             bad.append((op, "a valid %s setting was rejected (%s)" % (m[0], f.get("errno")), line)); continue
@@ -130,12 +141,13 @@ def run(R):
                            env=dict(os.environ, XC_SO_PATH=RELEASED_SO, LD_LIBRARY_PATH=os.path.dirname(RELEASED_SO)), timeout=3000)
         old = r.stdout.splitlines()
         for op, a, b in zip(ops, il, old):
-            if fields(a).get("out") != fields(b).get("out"):
+            if op.startswith("C ") and fields(a).get("out") != fields(b).get("out"):
                 bad.append((op, "result differs from the released libxcrypt 4.4.33: %s vs %s" % (fields(a).get("out"), fields(b).get("out")), a))
         R.cov["compared_with_released"] = len(old)
     # openssl passwd for the three methods it implements
     n_ossl = 0
     for op, m, line in list(zip(ops, meta, il))[::7]:
+        if not op.startswith("C "): continue
         if m[0] not in ("md5crypt", "sha256crypt", "sha512crypt"): continue
         t = op.split(" "); ph, st = unhx(t[3]) or b"", unhx(t[4])
         # `openssl passwd -stdin` reads one line into a bounded buffer: only phrases of at most 200 bytes without line-control bytes are comparable
